@@ -1029,76 +1029,80 @@ def groupsOk (P : Problem) (S : Solution) : Bool :=
 
 /-! ## loads -/
 
-/-- demand of a job activity: the demand of the task (of the same kind, picked by tag for multi-task jobs) -/
+/-- the task an activity refers to. The rule is the checker's documented requirement: a job with a single task (or a
+plain pickup-and-delivery pair) is addressed by the activity type, any other multi-task job by the place tag -/
 def taskOf (P : Problem) (a : Act) : Option (Job × Task) :=
-  match findJob P a.jobId, kindOfTy a.ty with
-  | some j, some k =>
-    let cands := (tasksOf j k).filter (fun t => j.tasks.length ≤ 1 || t.places.any (fun p => p.tag == a.tag)
-                                               || (j.tasks.length == 2 && (tasksOf j k).length == 1))
-    cands.head?.map (fun t => (j, t))
-  | _, _ => none
+  match findJob P a.jobId with
+  | some j => (match matchTask a j with | .ok tk => some (j, tk) | .error _ => none)
+  | none => none
 
-/-- per dimension: (static delivery, static pickup, dynamic change) of an activity -/
+/-- per dimension: (static delivery, static pickup, dynamic change) of an activity; dynamic = the job has both
+pickups and deliveries, so its goods travel inside the tour -/
 def actDelta (P : Problem) (a : Act) (d : Nat) : Int × Int × Int :=
   match taskOf P a with
   | none => (0, 0, 0)
   | some (j, t) =>
     let x := t.demand.getD d 0
-    let dyn := isDynamic j
     match a.ty with
-    | .delivery => if dyn then (0, 0, -x) else (x, 0, 0)
-    | .pickup => if dyn then (0, 0, x) else (0, x, 0)
+    | .delivery => if isDynamic j then (0, 0, -x) else (x, 0, 0)
+    | .pickup => if isDynamic j then (0, 0, x) else (0, x, 0)
     | _ => (0, 0, 0)
 
-def stopDelta (P : Problem) (s : Stop) (d : Nat) : Int × Int × Int :=
-  s.acts.foldl (fun acc a => let x := actDelta P a d; (acc.1 + x.1, acc.2.1 + x.2.1, acc.2.2 + x.2.2)) (0, 0, 0)
+/-- static deliveries / static pickups / dynamic change of a stop in dimension `d` -/
+def stopD (P : Problem) (d : Nat) (s : Stop) : Int := sumInt (s.acts.map (fun a => (actDelta P a d).1))
+def stopP (P : Problem) (d : Nat) (s : Stop) : Int := sumInt (s.acts.map (fun a => (actDelta P a d).2.1))
+def stopY (P : Problem) (d : Nat) (s : Stop) : Int := sumInt (s.acts.map (fun a => (actDelta P a d).2.2))
 
-def sumBy (f : Stop → Int) (l : List Stop) : Int := sumInt (l.map f)
+/-- number of activities of a stop at which the collected pickups leave the vehicle (tour end, reload) -/
+def unloads (s : Stop) : Int := ((countP (fun a => a.ty == .arrival || a.ty == .reload) s.acts : Nat) : Int)
 
-/-- the load after the stop at position `m` of a reload interval `iv` in dimension `d`, where `dynBefore` is what
-the dynamic (pickup-and-delivery) jobs left on board before the interval:
-deliveries still ahead in the interval + pickups collected since its start + dynamic goods on board;
-at the stop that ends the tour (arrival) the collected pickups are unloaded -/
-def expectedLoad (P : Problem) (dynBefore : Int) (iv : List Stop) (m d : Nat) : Int :=
-  let ahead := sumBy (fun s => (stopDelta P s d).1) (iv.drop (m + 1))
-  let sofar := sumBy (fun s => (stopDelta P s d).2.1) (iv.take (m + 1))
-  let dyn := dynBefore + sumBy (fun s => (stopDelta P s d).2.2) (iv.take (m + 1))
-  let unloaded := match iv[m]? with
-    | some s => if m ≥ 1 && s.acts.any (fun a => a.ty == .arrival || a.ty == .reload)
-                then sumBy (fun s => (stopDelta P s d).2.1) iv else 0
-    | none => 0
-  ahead + sofar + dyn - unloaded
+def sumStops (f : Stop → Int) (l : List Stop) : Int := sumInt (l.map f)
 
-def dims (P : Problem) (t : Tour) : Nat :=
-  (t.stops.map (fun s => s.load.length)).foldl max
-    (P.jobs.foldl (fun acc j => j.tasks.foldl (fun acc2 tk => max acc2 tk.demand.length) acc) 1)
+/-- the load after the stop at position `m` of a reload interval `iv` in dimension `d`, `dynBefore` being what is on
+board from before the interval (goods of pickup-and-delivery jobs):
+deliveries still ahead in the interval (they were loaded at its start) + pickups collected in it so far + dynamic goods
+on board − the collected pickups once per unloading activity passed after the interval's first stop -/
+def expectedLoad (P : Problem) (dynBefore : Nat → Int) (iv : List Stop) (m d : Nat) : Int :=
+  sumStops (stopD P d) (iv.drop (m + 1)) + sumStops (stopP P d) (iv.take (m + 1))
+  + dynBefore d + sumStops (stopY P d) (iv.take (m + 1))
+  - sumStops (stopP P d) iv * sumStops unloads ((iv.take (m + 1)).drop 1)
 
-def intervalLoadsOk (P : Problem) (cap : Load) (nd : Nat) (dynBefore : List Int) (iv : List Stop) : Bool :=
+/-- what stays on board over the reload that ends the interval: the load at its last stop without its pickups -/
+def carryAfter (P : Problem) (dynBefore : Nat → Int) (iv : List Stop) (d : Nat) : Int :=
+  expectedLoad P dynBefore iv (iv.length - 1) d - sumStops (stopP P d) iv
+
+/-- number of load dimensions in play: the longest demand of the problem, the capacity vector, at least one -/
+def dims (P : Problem) (v : VType) : Nat :=
+  max (maxNat (P.jobs.flatMap (fun j => j.tasks.map (fun tk => tk.demand.length)))) (max v.capacity.length 1)
+
+def stopLoadOk (P : Problem) (cap : Load) (nd : Nat) (dynBefore : Nat → Int) (iv : List Stop) (m : Nat) (s : Stop) : Bool :=
+  !s.load.isEmpty && decide (s.load.length ≤ nd) &&
+  (List.range nd).all (fun d =>
+    s.load.getD d 0 == expectedLoad P dynBefore iv m d && decide (s.load.getD d 0 ≤ cap.getD d 0))
+
+def intervalLoadsOk (P : Problem) (cap : Load) (nd : Nat) (dynBefore : Nat → Int) (iv : List Stop) : Bool :=
   (List.range iv.length).all (fun m =>
     match iv[m]? with
     | none => true
-    | some s =>
-      !s.load.isEmpty &&
-      (List.range nd).all (fun d =>
-        s.load.getD d 0 == expectedLoad P (dynBefore.getD d 0) iv m d && decide (s.load.getD d 0 ≤ cap.getD d 0)))
+    | some s => stopLoadOk P cap nd dynBefore iv m s)
 
-/-- loads over the reload intervals of a tour; `dynBefore` per dimension -/
-def intervalsLoadsOk (P : Problem) (cap : Load) (nd : Nat) : List Int → List (List Stop) → Bool
+/-- loads over the reload intervals of a tour -/
+def intervalsLoadsOk (P : Problem) (cap : Load) (nd : Nat) : (Nat → Int) → List (List Stop) → Bool
   | _, [] => true
   | dynBefore, iv :: rest =>
-    intervalLoadsOk P cap nd dynBefore iv &&
-    intervalsLoadsOk P cap nd
-      ((List.range nd).map (fun d => dynBefore.getD d 0 + sumBy (fun s => (stopDelta P s d).2.2) iv)) rest
+    intervalLoadsOk P cap nd dynBefore iv && intervalsLoadsOk P cap nd (carryAfter P dynBefore iv) rest
 
 /-- every job activity refers to a task, every reload/break activity to something the shift defines -/
 def actsKnown (P : Problem) (t : Tour) : Bool :=
+  (vehicleShift P t).toOption.isSome &&
   t.stops.all (fun s => s.acts.all (fun a =>
     match a.ty with
     | .departure | .arrival => true
-    | .pickup | .delivery | .replacement | .service => (taskOf P a).isSome
+    | .pickup | .delivery | .service => (taskOf P a).isSome
     | .brk | .reload => (activityType P t s a).toOption.isSome
     | _ => false))
 
+/-- reported loads = goods on board, within capacity, at every stop of every tour that moves (two stops or more) -/
 def loadsOk (P : Problem) (S : Solution) : Bool :=
   S.tours.all (fun t =>
     match findVehicle P t.vehicleId with
@@ -1106,7 +1110,7 @@ def loadsOk (P : Problem) (S : Solution) : Bool :=
     | some v =>
       match intervals t.stops with
       | none => false
-      | some ivs => (t.stops.length ≤ 1 || actsKnown P t) && intervalsLoadsOk P v.capacity (dims P t) [] ivs)
+      | some ivs => (t.stops.length ≤ 1 || actsKnown P t) && intervalsLoadsOk P v.capacity (dims P v) (fun _ => 0) ivs)
 
 /-! ## routing and statistics -/
 
